@@ -25,6 +25,8 @@ def run(ctx):
         common.require_tlc_ok(ctx, ge, "GenExpr")
         gp = common.tlc(ctx, "GenProg", cfg="GenProg_s2", workers=8, timeout=3000)
         common.require_tlc_ok(ctx, gp, "GenProg")
+        gd = common.tlc(ctx, "GenData", cfg="GenData", workers=8, timeout=3000)
+        common.require_tlc_ok(ctx, gd, "GenData")
     erows, prows = ge["cases"]["CASE"], gp["cases"]["CASE"]
 
     def pick(rows, n):
@@ -32,7 +34,7 @@ def run(ctx):
             return list(rows)
         buckets = {}
         for r in rows:
-            key = tuple(sorted(t for t in r["feats"] if t.startswith(("bin:", "binshape:", "bin-same", "un:", "call:", "index:", "slice", "stmt:"))))
+            key = tuple(sorted(t for t in r["feats"] if t.startswith(("bin:", "binshape:", "bin-same", "un:", "call:", "index:", "slice", "stmt:", "match:", "pat:", "arm:", "data:", "subject:"))))
             buckets.setdefault(key, []).append(r)
         keys = sorted(buckets)
         rnd.shuffle(keys)
@@ -49,9 +51,12 @@ def run(ctx):
         return out
     cases = [pipeline.expr_case(r, k) for k, r in enumerate(pick(erows, n_expr))]
     cases += [pipeline.prog_case(r, k) for k, r in enumerate(pick(prows, n_prog))]
+    drows = gd["cases"]["CASE"]
+    cases += [pipeline.data_case(r, k) for k, r in enumerate(pick(drows, 110 if ctx.quick else 1396))]
     with ctx.timed("self_check"):
         rej = pipeline.self_check_exprs(ctx, [c for c in cases if c["kind"] == "expr"])
         rej.update(pipeline.self_check_progs(ctx, [c for c in cases if c["kind"] == "prog"]))
+        rej.update(pipeline.self_check_data(ctx, [c for c in cases if c["kind"] == "data"]))
     cases = [c for c in cases if c["id"] not in rej]
     ev = pipeline.evaluate(ctx, cases)
     stats = {}
